@@ -75,7 +75,22 @@ pub fn check(c: &Case) -> Outcome {
                 spec.width
             );
         } else {
-            if spec.sep == Sep::Ascii && spec.split == Split::None {
+            if spec.split == Split::Hyphen {
+                // split points of the hyphen splitter, from C12's statement
+                let pts = super::c12::hyphen_points(body);
+                ensure!(
+                    pts.is_empty(),
+                    "first-fit line {} = {} of wrap({}, {:?}) is {} columns wide (room {}) although the hyphen splitter has split points {:?} in it",
+                    k,
+                    show(l),
+                    show(t),
+                    spec,
+                    bw,
+                    room,
+                    pts
+                );
+            }
+            if spec.sep == Sep::Ascii {
                 // library-free form: no space followed by a non-space
                 let b = body.as_bytes();
                 let breakable = (1..b.len()).any(|i| b[i - 1] == b' ' && b[i] != b' ');
@@ -159,7 +174,7 @@ impl Property for P {
         }
     }
     fn rule() -> String {
-        "cases = (clean token text, 1..n paragraphs; first-fit; both separators; none/hyphen splitters; break_words on/off; all indent pairs incl. differing widths and indents wider than the width; widths 0..80 and huge); oracle = for every line: own display width of the body <= width - own width of the indent the line is rendered with, or body empty, or (break_words on) <= 1 non-zero-width character, or (break_words off) body == one in-context fragment of some paragraph (+ library-free form for ASCII/no splitter). non-trivial = (>= 2 paragraphs or indents of different widths) and some paragraph was wrapped; distinct = distinct serialized cases".into()
+        "cases = (clean token text, 1..n paragraphs; first-fit; both separators; none/hyphen splitters; break_words on/off; all indent pairs incl. differing widths and indents wider than the width; widths 0..80 and huge); oracle = for every line: own display width of the body <= width - own width of the indent the line is rendered with, or body empty, or (break_words on) <= 1 non-zero-width character, or (break_words off) body == one in-context fragment of some paragraph, contains no space followed by a non-space (ASCII separator) and no hyphen split point by C12's definition (hyphen splitter). non-trivial = (>= 2 paragraphs or indents of different widths) and some paragraph was wrapped; distinct = distinct serialized cases".into()
     }
     fn assumptions() -> Vec<String> {
         vec!["break opportunity / split point = the library's find_words/split_words (decided by C11/C12)".into()]
